@@ -1030,6 +1030,18 @@ func (cx *evalCtx) call(x *ast.CallExpr) (TV, error) {
 				ref = app("s_arr", ref)
 			}
 			return TV{app(">=", ref, cx.old.frontier), SBool, types.Typ[types.Bool]}, nil
+		case "held":
+			// held(ref(x.mu)): the mutex at that address is held (lock typestate; what `guarded ... by` checks)
+			as, err := cx.args(x.Args)
+			if err != nil {
+				return TV{}, err
+			}
+			if len(as) != 1 || as[0].Sort != SInt {
+				return TV{}, fmt.Errorf("held(ref(x.mutexField)) expects the address of a mutex")
+			}
+			hn := r.eng.regHeap("GH_held", "(Array Int Int)", types.Typ[types.Int])
+			r.heapDeclare(hn)
+			return TV{not(eq(app("select", r.heapGet(cx.st, hn), as[0].S), "0")), SBool, types.Typ[types.Bool]}, nil
 		case "seen":
 			// seen(k): key k was already produced by the map iteration in progress (ghost visited set)
 			as, err := cx.args(x.Args)
